@@ -551,6 +551,137 @@ var knownExternalFuncs = map[string]bool{
 	"(sdk.AccAddress).Bytes": true, "(sdk.AccAddress).Equals": true, "(sdk.AccAddress).Empty": true, "(sdk.Coin).String": true, "(sdk.Coins).String": true,
 }
 
+// initOnlyExternals: registration functions that mutate process-global registries and panic
+// on a second registration: package initialisation only.
+var initOnlyExternals = map[string]bool{
+	"sdkerrors.Register": true, "(*codec.LegacyAmino).Seal": true, "codec.NewLegacyAmino": true, "codec.NewProtoCodec": true, "codec/types.NewInterfaceRegistry": true,
+	"core/appmodule.Register": true, "core/appmodule.Provide": true, "grpc-gateway/runtime.MustPattern": true, "grpc-gateway/runtime.NewPattern": true,
+	"auth/types.NewModuleAddress": true,
+}
+
+func initOnlyObligation(p *Prog, r *Report, rule string) {
+	var bad []string
+	n := 0
+	for _, fn := range p.Funcs {
+		top := fn
+		for top.Parent() != nil {
+			top = top.Parent()
+		}
+		isInit := top.Name() == "init" || strings.HasPrefix(top.Name(), "init#")
+		for _, b := range fn.Blocks {
+			for _, in := range b.Instrs {
+				var ops []*ssa.Value
+				for _, op := range in.Operands(ops) {
+					if f, ok := (*op).(*ssa.Function); ok && f != nil && initOnlyExternals[funcName(f)] {
+						n++
+						if !isInit {
+							bad = append(bad, fmt.Sprintf("%s uses %s at %s", funcName(fn), funcName(f), p.instrPos(in)))
+						}
+					}
+				}
+			}
+		}
+	}
+	r.check(len(bad) == 0, rule, rule+"/registration-at-init-only", "", fmt.Sprintf("%d uses of process-global registration functions, all in package initialisers", n),
+		fmt.Sprintf("a registration function that writes a process-global registry (and panics on a duplicate) is used at run time: %v", bad))
+}
+
+// printsAddress: would fmt's default verbs print a memory address for a value of this type?
+func printsAddress(T types.Type, top bool, depth int) bool {
+	if depth > 4 {
+		return false
+	}
+	if n, ok := T.(*types.Named); ok {
+		// a type with its own String/Error/Format method prints what that says
+		for _, recv := range []types.Type{n, types.NewPointer(n)} {
+			ms := types.NewMethodSet(recv)
+			for _, m := range []string{"String", "Error", "Format"} {
+				if ms.Lookup(nil, m) != nil {
+					return false
+				}
+			}
+		}
+	}
+	switch u := T.Underlying().(type) {
+	case *types.Pointer:
+		if ms := types.NewMethodSet(T); ms.Lookup(nil, "String") != nil || ms.Lookup(nil, "Error") != nil || ms.Lookup(nil, "Format") != nil {
+			return false
+		}
+		if _, isStruct := u.Elem().Underlying().(*types.Struct); isStruct && top {
+			return printsAddress(u.Elem(), false, depth+1) // &{…}: the fields decide
+		}
+		return true
+	case *types.Signature, *types.Chan:
+		return true
+	case *types.Basic:
+		return u.Kind() == types.UnsafePointer || u.Kind() == types.Uintptr
+	case *types.Struct:
+		for i := 0; i < u.NumFields(); i++ {
+			if printsAddress(u.Field(i).Type(), false, depth+1) {
+				return true
+			}
+		}
+	case *types.Slice:
+		return printsAddress(u.Elem(), false, depth+1)
+	case *types.Array:
+		return printsAddress(u.Elem(), false, depth+1)
+	case *types.Map:
+		return printsAddress(u.Elem(), false, depth+1) || printsAddress(u.Key(), false, depth+1)
+	}
+	return false
+}
+
+// formatObligation: no formatting / logging call is handed a value that prints as an address.
+func formatObligation(p *Prog, r *Report, rule string) {
+	var bad []string
+	n := 0
+	for _, fn := range p.Funcs {
+		top := fn
+		for top.Parent() != nil {
+			top = top.Parent()
+		}
+		if top.Pkg != nil && top.Pkg.Pkg.Path() == modulePkgs[3] {
+			continue
+		}
+		for _, b := range fn.Blocks {
+			for _, in := range b.Instrs {
+				ci, ok := in.(ssa.CallInstruction)
+				if !ok {
+					continue
+				}
+				c := ci.Common()
+				name := ""
+				if c.IsInvoke() {
+					name = invokeName(c)
+					if !strings.HasPrefix(name, "Logger.") {
+						continue
+					}
+				} else if f := c.StaticCallee(); f != nil {
+					name = funcName(f)
+					if !formatters[name] && name != "status.Errorf" {
+						continue
+					}
+				} else {
+					continue
+				}
+				n++
+				for _, a := range c.Args {
+					for _, v := range handedValues(a) {
+						if _, isIface := v.Type().Underlying().(*types.Interface); isIface {
+							continue // an error or message value of unknown dynamic type
+						}
+						if printsAddress(v.Type(), true, 0) {
+							bad = append(bad, fmt.Sprintf("%s hands a %s to %s at %s", funcName(fn), typeStr(v.Type()), name, p.instrPos(in)))
+						}
+					}
+				}
+			}
+		}
+	}
+	r.check(len(bad) == 0, rule, rule+"/no-address-in-formatted-text", "", fmt.Sprintf("%d formatting / logging calls: no argument prints as a memory address", n),
+		fmt.Sprintf("a value that fmt prints as a memory address (pointer, func, chan) is formatted: the text differs between runs: %v", bad))
+}
+
 func externalAllowObligation(p *Prog, r *Report, rule, concern string) {
 	ex := p.externalCallees()
 	var names []string
